@@ -895,6 +895,11 @@ class AdapterLookupBase:
 
     def _uncached_lookup(self, required, provided, name=''):
         required = tuple(required)
+        # Watch the required specifications *before* working out the
+        # answer: a change to one of them that arrives in between (from
+        # another thread, or from code this runs) has to invalidate what
+        # we are about to cache.
+        self._subscribe(*required)
         result = None
         order = len(required)
         for registry in self._registry.ro:
@@ -915,8 +920,6 @@ class AdapterLookupBase:
             if result is not None:
                 break
 
-        self._subscribe(*required)
-
         return result
 
     def queryMultiAdapter(self, objects, provided, name='', default=None):
@@ -934,6 +937,7 @@ class AdapterLookupBase:
 
     def _uncached_lookupAll(self, required, provided):
         required = tuple(required)
+        self._subscribe(*required)  # first, see ``_uncached_lookup``
         order = len(required)
         result = {}
         for registry in reversed(self._registry.ro):
@@ -946,8 +950,6 @@ class AdapterLookupBase:
                 continue
             _lookupAll(components, required, extendors, result, 0, order)
 
-        self._subscribe(*required)
-
         return tuple(result.items())
 
     def names(self, required, provided):
@@ -955,6 +957,7 @@ class AdapterLookupBase:
 
     def _uncached_subscriptions(self, required, provided):
         required = tuple(required)
+        self._subscribe(*required)  # first, see ``_uncached_lookup``
         order = len(required)
         result = []
         for registry in reversed(self._registry.ro):
@@ -972,8 +975,6 @@ class AdapterLookupBase:
 
             _subscriptions(components, required, extendors, '',
                            result, 0, order)
-
-        self._subscribe(*required)
 
         return result
 
